@@ -13,6 +13,7 @@ import (
 	"sort"
 	"strings"
 	"sync"
+	"sync/atomic"
 	"time"
 
 	"github.com/datastax/go-cassandra-native-protocol/compression/lz4"
@@ -50,6 +51,7 @@ type Conn struct {
 	Compression string
 	registered  bool
 	closed      bool
+	authStep    int // 0: not authenticated; with Cluster.Auth set, requests before AUTH_SUCCESS are refused
 }
 
 func (c *Conn) Keyspace() string { c.mu.Lock(); defer c.mu.Unlock(); return c.keyspace }
@@ -106,7 +108,12 @@ type Node struct {
 	conns  map[*Conn]struct{}
 	up     bool
 	Listed bool // appears in system.local/system.peers of the other nodes
+	// maxVersion, when set, is the highest protocol version this node speaks (an older node in a mixed cluster).
+	maxVersion int32
 }
+
+// SetMaxVersion makes the node speak nothing above v from now on (0: whatever the cluster speaks).
+func (n *Node) SetMaxVersion(v primitive.ProtocolVersion) { atomic.StoreInt32(&n.maxVersion, int32(v)) }
 
 type Cluster struct {
 	Port       int
@@ -125,6 +132,9 @@ type Cluster struct {
 	// SlowKeyspaces makes `USE ks` take that long to be answered (the connection stays responsive meanwhile).
 	SlowKeyspaces map[string]time.Duration
 	OnConnect        func(c *Conn)
+	// Auth makes every connection authenticate after STARTUP: "password" (AUTHENTICATE, AUTH_RESPONSE, AUTH_SUCCESS) or
+	// "dse" (DseAuthenticator: the mechanism name first, then an AUTH_CHALLENGE round trip). Credentials: user / pw.
+	Auth string
 	// StartupHandler may override the answer to STARTUP (a node that is not ready to serve yet).
 	StartupHandler func(c *Conn, header *frame.Header) (Response, bool)
 	// OptionsHandler may override the answer to OPTIONS (heart-beats).
@@ -434,9 +444,13 @@ func (c *Conn) handle(rawHdr, rawBody []byte) {
 	if header == nil {
 		return
 	}
-	if header.Version > cl.MaxVersion || header.Version < primitive.ProtocolVersion3 {
+	nodeMax := cl.MaxVersion
+	if v := atomic.LoadInt32(&c.Node.maxVersion); v != 0 {
+		nodeMax = primitive.ProtocolVersion(v)
+	}
+	if header.Version > nodeMax || header.Version < primitive.ProtocolVersion3 {
 		// what Cassandra does; lets the proxy's control connection negotiate downwards
-		v := cl.MaxVersion
+		v := nodeMax
 		_ = c.write(func(w io.Writer) error {
 			return plainCodec.EncodeFrame(frame.NewFrame(v, header.StreamId, &message.ProtocolError{
 				ErrorMessage: fmt.Sprintf("Invalid or unsupported protocol version (%d)", header.Version)}), w)
@@ -472,12 +486,50 @@ func (c *Conn) handle(rawHdr, rawBody []byte) {
 			if v, ok := m.Options["COMPRESSION"]; ok {
 				comp = strings.ToLower(v)
 			}
+			cl.mu.Lock()
+			auth := cl.Auth
+			cl.mu.Unlock()
+			if auth != "" {
+				name := "org.apache.cassandra.auth.PasswordAuthenticator"
+				if auth == "dse" {
+					name = "com.datastax.bdp.cassandra.auth.DseAuthenticator"
+				}
+				_ = c.Send(header.Version, header.StreamId, &message.Authenticate{Authenticator: name})
+				c.mu.Lock()
+				c.Compression = comp
+				c.authStep = 1
+				c.mu.Unlock()
+				return
+			}
 			// READY is sent uncompressed-flagged by the library codec only when the codec has no compressor;
 			// real servers answer STARTUP before enabling compression.
 			_ = c.Send(header.Version, header.StreamId, &message.Ready{})
 			c.mu.Lock()
 			c.Compression = comp
 			c.mu.Unlock()
+			return
+		case *message.AuthResponse:
+			cl.mu.Lock()
+			auth := cl.Auth
+			cl.mu.Unlock()
+			c.mu.Lock()
+			step := c.authStep
+			c.mu.Unlock()
+			good := string(m.Token) == "\x00user\x00pw"
+			switch {
+			case auth == "dse" && step == 1 && string(m.Token) == "PLAIN":
+				c.mu.Lock()
+				c.authStep = 2
+				c.mu.Unlock()
+				_ = c.Send(header.Version, header.StreamId, &message.AuthChallenge{Token: []byte("PLAIN-START")})
+			case (auth == "password" && step == 1 || auth == "dse" && step == 2) && good:
+				c.mu.Lock()
+				c.authStep = 3
+				c.mu.Unlock()
+				_ = c.Send(header.Version, header.StreamId, &message.AuthSuccess{})
+			default:
+				_ = c.Send(header.Version, header.StreamId, &message.AuthenticationError{ErrorMessage: "bad credentials"})
+			}
 			return
 		case *message.Register:
 			c.mu.Lock()
